@@ -294,6 +294,84 @@ m("c04-queuer-no-empty-release", "C04", "fn_ready_queuer keeps the ready-sender 
     }
     let stream = stream::poll_fn""", """    let fn_ready_tx = Some(fn_ready_tx);
     let stream = stream::poll_fn""", 1))
+m("c04-done-send-not-awaited", "C04", "for_each_concurrent_mut creates the done-send future but never awaits it",
+  (FG, """                        fn_for_each(&mut r#fn).await;
+                        fn_done_send_locked(fn_done_tx, fn_id).await;""", """                        fn_for_each(&mut r#fn).await;
+                        let _ = fn_done_send_locked(fn_done_tx, fn_id);""", 1))
+m("c04-release-not-awaited", "C04", "try_for_each_concurrent creates the countdown/release future but never awaits it",
+  (FG, """                        fn_done_send_locked(fn_done_tx, fn_id).await;
+                        fns_remaining_decrement(fns_remaining, fn_done_tx).await;
+                    }
+
+                    #[cfg(feature = "interruptible")]
+                    fn_done_tx_drop_if_interrupted(fn_done_tx, interrupted).await;
+                },
+            )
+            .await;
+
+            drop(result_tx);
+
+            fn_ids_processed
+        };
+
+        let ((), fn_ids_processed) = futures::join!(queuer, scheduler);
+        let stream_outcome_state = stream_outcome_state_after_stream(*fns_remaining.read().await);
+        let stream_outcome =
+            StreamOutcome::new(graph_structure, (), stream_outcome_state, fn_ids_processed);
+
+        let results = stream::poll_fn(move |ctx| result_rx.poll_recv(ctx))
+            .collect::<Vec<E>>()
+            .await;
+
+        if results.is_empty() {
+            Ok(stream_outcome)
+        } else {
+            Err((stream_outcome, results))
+        }
+    }
+
+    /// Runs the provided logic over the functions concurrently in topological
+    /// order, stopping when an error is encountered.
+    ///
+    /// This gracefully waits until all produced tasks have returned. The return
+    /// error type is a `Vec<E>` as it is possible for multiple tasks to return
+    /// errors.""", """                        fn_done_send_locked(fn_done_tx, fn_id).await;
+                        drop(fns_remaining_decrement(fns_remaining, fn_done_tx));
+                    }
+
+                    #[cfg(feature = "interruptible")]
+                    fn_done_tx_drop_if_interrupted(fn_done_tx, interrupted).await;
+                },
+            )
+            .await;
+
+            drop(result_tx);
+
+            fn_ids_processed
+        };
+
+        let ((), fn_ids_processed) = futures::join!(queuer, scheduler);
+        let stream_outcome_state = stream_outcome_state_after_stream(*fns_remaining.read().await);
+        let stream_outcome =
+            StreamOutcome::new(graph_structure, (), stream_outcome_state, fn_ids_processed);
+
+        let results = stream::poll_fn(move |ctx| result_rx.poll_recv(ctx))
+            .collect::<Vec<E>>()
+            .await;
+
+        if results.is_empty() {
+            Ok(stream_outcome)
+        } else {
+            Err((stream_outcome, results))
+        }
+    }
+
+    /// Runs the provided logic over the functions concurrently in topological
+    /// order, stopping when an error is encountered.
+    ///
+    /// This gracefully waits until all produced tasks have returned. The return
+    /// error type is a `Vec<E>` as it is possible for multiple tasks to return
+    /// errors.""", 1))
 # ---- C05 ----------------------------------------------------------------
 m("c05-fnref-drop-expect", "C05", "FnRef::drop expects the send to succeed",
   ("src/fn_ref.rs", "let _ = self.fn_done_tx.try_send(self.fn_id);", 'self.fn_done_tx.try_send(self.fn_id).expect("stream dropped");', 1))
@@ -581,6 +659,21 @@ m("c17-iter-rev-forward", "C17", "GraphInfo::iter_rev walks the graph forwards",
         let _ = reversed;
         Topo::new(&self.graph)
             .iter(&self.graph)""", 1))
+m("c17-serde-skip-serializing", "C17", "GraphInfo.graph is not serialised (asymmetric serde attribute)",
+  ("src/graph_info.rs", """    /// The underlying directed acyclic graph.
+    pub graph: Dag<NodeInfo, Edge, FnIdInner>,""", """    /// The underlying directed acyclic graph.
+    #[serde(skip_serializing)]
+    pub graph: Dag<NodeInfo, Edge, FnIdInner>,""", 1))
+m("c17-serde-rename-variant", "C17", "Edge::Data is written under another name than it is read (asymmetric rename)",
+  ("src/edge.rs", """    Data,""", """    #[cfg_attr(feature = "graph_info", serde(rename(serialize = "DataAccess")))]
+    Data,""", 1))
+m("c09-outcome-gets-fresh-vec", "C09", "for_each_concurrent reports a clone of the processed ids taken before the run",
+  (FG, """            let stream_outcome_state =
+                stream_outcome_state_after_stream(*fns_remaining.read().await);
+            StreamOutcome::new(graph_structure, (), stream_outcome_state, fn_ids_processed)""", """            let stream_outcome_state =
+                stream_outcome_state_after_stream(*fns_remaining.read().await);
+            let reported = Vec::with_capacity(fn_ids_processed.len());
+            StreamOutcome::new(graph_structure, (), stream_outcome_state, reported)""", 1))
 # ---- C19 ----------------------------------------------------------------
 m("c19-fnref-not-send", "C19", "FnRef gains an Rc marker and stops being Send",
   ("src/fn_ref.rs", """    /// Channel to notify when this reference is dropped.
